@@ -167,6 +167,64 @@ theorem bfeU_meaning (a off wd : W) :
   exact Nat.and_two_pow_sub_one_eq_mod _ _
 example : bfeU 0x12345678#32 8#32 12#32 = 0x456#32 := by decide
 
+/-- bit i of the width-w mask is set exactly for i < w -/
+theorem maskW_bit (w i : Nat) (hw : w < 32) : (maskW w).getLsbD i = (decide (i < 32) && decide (i < w)) := by
+  have hp : 2 ^ w < 2 ^ 32 := Nat.pow_lt_pow_right (by decide) hw
+  have hpos : 0 < 2 ^ w := Nat.pow_pos (by decide)
+  have hm : maskW w = BitVec.ofNat 32 (2 ^ w - 1) := by
+    apply BitVec.eq_of_toNat_eq
+    simp only [maskW, BitVec.toNat_sub, BitVec.toNat_shiftLeft, BitVec.toNat_ofNat, Nat.shiftLeft_eq]
+    omega
+  rw [hm, BitVec.getLsbD_ofNat, Nat.testBit_two_pow_sub_one]
+
+/-- V_BFE_I32 sign-extends: bits below `width` are those of the (arithmetically) shifted source,
+    every bit from `width-1` upwards is a copy of bit `width-1` of the field. -/
+theorem bfeI_meaning (a off wd : W) (i : Nat) (hi : i < 32) (hw : wd.toNat % 32 ≠ 0) :
+    (bfeI a off wd).getLsbD i =
+      (a.sshiftRight (off.toNat % 32)).getLsbD (min i (wd.toNat % 32 - 1)) := by
+  have ho : (off &&& 31#32).toNat = off.toNat % 32 := by
+    simp only [BitVec.toNat_and]
+    exact Nat.and_two_pow_sub_one_eq_mod off.toNat 5
+  have hwd : (wd &&& 31#32).toNat = wd.toNat % 32 := by
+    simp only [BitVec.toNat_and]
+    exact Nat.and_two_pow_sub_one_eq_mod wd.toNat 5
+  have hlt : wd.toNat % 32 < 32 := Nat.mod_lt _ (by decide)
+  generalize hwv : wd.toNat % 32 = w at *
+  generalize hov : off.toNat % 32 = o at *
+  simp only [bfeI, hwd, ho]
+  have hne : (w == 0) = false := by simp [hw]
+  simp only [hne]
+  have hw1 : w - 1 < w := by omega
+  by_cases hs : ((a.sshiftRight o) &&& maskW w).getLsbD (w - 1)
+  · simp only [hs, if_true, Bool.false_eq_true, if_false]
+    simp only [BitVec.getLsbD_or, BitVec.getLsbD_and, BitVec.getLsbD_not, maskW_bit _ _ hlt, hi, decide_true, Bool.true_and]
+    simp only [BitVec.getLsbD_and, maskW_bit _ _ hlt] at hs
+    by_cases hiw : i < w
+    · have : min i (w - 1) = i := by omega
+      simp [hiw, this]
+    · have : min i (w - 1) = w - 1 := by omega
+      simp [hiw, this]
+      simp [hw1] at hs
+      exact hs.1.symm ▸ rfl
+  · simp only [hs, Bool.false_eq_true, if_false]
+    simp only [BitVec.getLsbD_and, maskW_bit _ _ hlt, hi, decide_true, Bool.true_and]
+    simp only [BitVec.getLsbD_and, maskW_bit _ _ hlt] at hs
+    by_cases hiw : i < w
+    · have : min i (w - 1) = i := by omega
+      simp [hiw, this]
+    · have : min i (w - 1) = w - 1 := by omega
+      simp [hiw, this]
+      simp [hw1] at hs
+      have h32 : w - 1 < 32 := by omega
+      have hb : (a.sshiftRight o).getLsbD (w - 1) = false := by
+        cases hc : (a.sshiftRight o).getLsbD (w - 1)
+        · rfl
+        · exfalso
+          have := hs (by simpa [BitVec.getLsbD_eq_getElem h32] using hc)
+          omega
+      simp [hb]
+example : bfeI 0x80000000#32 4#32 31#32 = 0xF8000000#32 ∧ bfeI 0x00000F00#32 8#32 4#32 = 0xFFFFFFFF#32 := by decide
+
 /-- V_BFI_B32: bitwise select — where the mask S0 has a 1 take S1's bit, else S2's bit. -/
 theorem bfi_meaning (a b c : W) (i : Nat) :
     (bfi a b c).getLsbD i = if a.getLsbD i then b.getLsbD i else c.getLsbD i := by
